@@ -35,25 +35,29 @@ def filters(prog, rep, tag):
         rep.ob(P, "lookup-present" + tag, False, "receive_frame no longer has exactly one slot lookup", loc=b.span)
         return
     pr = Prov(b)
-    # ethertype != ETHERCAT_ETHERTYPE -> Ignored ; src == self.source_mac -> Ignored
-    et_ok = src_ok = False
+    # ethertype != ETHERCAT_ETHERTYPE -> Ignored ; src == self.source_mac -> Ignored.  Idiom independent: after the
+    # comparison came out the wrong way the lookup must not be feasible any more (early return, accumulated bool,
+    # `||` chains and helpers returning the verdict all look the same to the three-valued flow).
     ethertype = prog.const_value("ETHERCAT_ETHERTYPE")
-    for cd in q.conds(b):
-        if cd.kind == "cmp" and cd.op in ("Eq", "Ne"):
-            both = pr.of_operand(cd.lhs) | pr.of_operand(cd.rhs)
-            if has_root(both, "call", "EthernetFrame::ethertype") and any(r[0] == "const" and "ETHERCAT_ETHERTYPE" in str(r[1]) for r in both):
-                eq_t = cd.true_target() if cd.op == "Eq" else cd.false_target()
-                if lk[0].bb in q.edge_dominated(b, cd.bb, eq_t):
-                    et_ok = True
-        if cd.kind == "call" and cd.call.is_("PartialEq::eq", "PartialEq::ne"):
-            both = pr.of_operand(cd.call.args[0]) | pr.of_operand(cd.call.args[1])
-            if has_root(both, "call", "EthernetFrame::src_addr") and has_root(both, "field", "PduRx", "source_mac"):
-                # eq -> true means own frame -> must NOT reach lookup
-                is_eq = cd.call.is_("PartialEq::eq")
-                own_t = cd.true_target() if is_eq else cd.false_target()
-                other_t = cd.false_target() if is_eq else cd.true_target()
-                if lk[0].bb in q.edge_dominated(b, cd.bb, other_t) and lk[0].bb not in b.reachable_from(own_t, avoid={cd.bb}) - q.edge_dominated(b, cd.bb, other_t):
-                    src_ok = True
+    et_sites = q.comparison_sites(b, lambda x, y: has_root(x, "call", "EthernetFrame::ethertype") and any(r[0] == "const" and "ETHERCAT_ETHERTYPE" in str(r[1]) for r in y), pr)
+    et_ok = len(et_sites) >= 1 and all(lk[0].bb not in q.feasible_after(b, s_, equal=False) and lk[0].bb in q.feasible_after(b, s_, equal=True) for s_ in et_sites)
+    src_sites = q.comparison_sites(b, lambda x, y: has_root(x, "call", "EthernetFrame::src_addr") and has_root(y, "field", "PduRx", "source_mac"), pr)
+    src_ok = len(src_sites) >= 1 and all(lk[0].bb not in q.feasible_after(b, s_, equal=True) and lk[0].bb in q.feasible_after(b, s_, equal=False) for s_ in src_sites)
+    # and the lookup cannot be reached around the comparisons
+    # (a path may skip one comparison only through blocks that exist solely for the other one's rejecting outcome:
+    # `a != b || c == d` never evaluates the second test for a foreign EtherType)
+    def rejecting_only(sites, equal_is_bad):
+        bad = set()
+        good = set()
+        for s_ in sites:
+            bad |= q.feasible_after(b, s_, equal=equal_is_bad)
+            good |= q.feasible_after(b, s_, equal=not equal_is_bad)
+        return bad - good
+
+    if et_sites and lk[0].bb in b.reachable_from(0, avoid={s_[4] for s_ in et_sites} | rejecting_only(src_sites, True)):
+        et_ok = False
+    if src_sites and lk[0].bb in b.reachable_from(0, avoid={s_[4] for s_ in src_sites} | rejecting_only(et_sites, False)):
+        src_ok = False
     rep.ob(P, "ethertype" + tag, et_ok and ethertype == 0x88A4, "the slot lookup is reached only where ethertype == ETHERCAT_ETHERTYPE (= %#x)" % ethertype, loc=b.span)
     rep.ob(P, "own-source" + tag, src_ok, "the slot lookup is reached only where the source address differs from self.source_mac", loc=b.span)
     # new_checked precedes everything
